@@ -60,6 +60,25 @@ Theorem C17_wellformed_example :
 Proof. exact wf_example. Qed.
 Print Assumptions C17_wellformed_example.
 
+(* the precondition covers the class the property quantifies over: at least one peak and one trough inside the
+   array, alternating; every supplied midpoint that does not coincide with an extremum lies on a flank of its kind
+   (no_ext_between = no extremum strictly between), at most one of a kind per flank.  The "two samples apart"
+   condition is not even needed.  The correspondence runner re-tests the boolean form wf_cpsb on every generated
+   case. *)
+Theorem C17_quantified_inputs_are_wellformed : forall c, cps_domain c -> wf_cps c.
+Proof. exact cps_domain_wf. Qed.
+Print Assumptions C17_quantified_inputs_are_wellformed.
+
+Theorem C17_quantified_class_is_inhabited :
+  cps_domain {| c_n := 20; c_peaks := [6; 14]%nat; c_troughs := [2; 10]%nat; c_rises := Some [4; 12]%nat; c_decays := Some [8]%nat |}.
+Proof. exact cps_domain_example. Qed.
+Print Assumptions C17_quantified_class_is_inhabited.
+
+(* the boolean test evaluated by the correspondence runner on every case is sound for the precondition *)
+Theorem C17_runner_precondition_test_is_sound : forall c, wf_cpsb c = true -> wf_cps c.
+Proof. exact wf_cpsb_sound. Qed.
+Print Assumptions C17_runner_precondition_test_is_sound.
+
 (* Legacy: the end mask before the repair *)
 Theorem C17_legacy_all_nan_refuted :
   phase_legacy {| c_n := 3; c_peaks := [0%nat]; c_troughs := [2%nat]; c_rises := None; c_decays := None |}
